@@ -594,6 +594,7 @@ pub mod atomic {
 pub mod cell {
     //! Mirrors `std::cell::UnsafeCell`; obtaining the raw pointer is reported as an access.
     use std::cell as sc;
+    pub use std::cell::{Cell, Ref, RefCell, RefMut};
 
     /// Shim for `std::cell::UnsafeCell`.
     #[derive(Default)]
@@ -629,7 +630,8 @@ pub mod sync {
     use std::fmt;
     use std::ops::{Deref, DerefMut};
     use std::sync as ss;
-    pub use std::sync::{Arc, Once, Weak, ONCE_INIT};
+    // Everything else the library might pull from `std::sync` stays the std type.
+    pub use std::sync::{mpsc, Arc, Barrier, Condvar, Once, RwLock, RwLockReadGuard, RwLockWriteGuard, Weak, ONCE_INIT};
 
     /// Shim for `std::sync::Mutex`. Data lives in a real mutex which is only ever taken by the
     /// thread the scheduler let through, so it never contends when hooks are installed.
